@@ -492,6 +492,42 @@ func c11Many() []gen.Tagged {
 	return out
 }
 
+// c11Cycle: two relations a and b on one tuple cycle (each assignable to the other's userset), each with an optional public
+// type listed before or after the userset, and a relation x behind the cycle that enters it at a or at b and may list a
+// public type of its own - the public types drawn from {e, m, u} so that they sort before, between and after one another.
+func c11Cycle() []gen.Tagged {
+	var out []gen.Tagged
+	pub := func(t string) ref.Restriction { return ref.Restriction{Type: t, Wildcard: true} }
+	us := func(r string) ref.Restriction { return ref.Restriction{Type: "doc", Relation: r} }
+	lists := func(userset ref.Restriction, pubs []string) [][]ref.Restriction {
+		ls := [][]ref.Restriction{{userset}}
+		for _, p := range pubs {
+			ls = append(ls, []ref.Restriction{userset, pub(p)}, []ref.Restriction{pub(p), userset})
+		}
+		return ls
+	}
+	as := lists(us("b"), []string{"e", "u"})
+	bs := lists(us("a"), []string{"e", "m", "u"})
+	var xs [][]ref.Restriction
+	for _, entry := range []string{"a", "b"} {
+		xs = append(xs, lists(us(entry), []string{"e", "u"})...)
+	}
+	for _, a := range as {
+		for _, b := range bs {
+			for _, x := range xs {
+				// a terminal type keeps the model well-founded
+				bl := append(append([]ref.Restriction{}, b...), ref.Restriction{Type: "e"})
+				doc := ref.TypeDef{Name: "doc", Rels: []ref.Relation{
+					{Name: "a", Rw: ref.T(), Restr: a}, {Name: "b", Rw: ref.T(), Restr: bl}, {Name: "x", Rw: ref.T(), Restr: x},
+				}}
+				m := &ref.Model{Schema: "1.1", Types: []ref.TypeDef{{Name: "e"}, {Name: "m"}, {Name: "u"}, doc}}
+				out = append(out, gen.Tagged{Tag: fmt.Sprintf("cycle-publics: a: %v | b: %v | x: %v", a, bl, x), M: m})
+			}
+		}
+	}
+	return out
+}
+
 func c11Run(ctx *core.Ctx) {
 	run := func(i int, tm gen.Tagged) bool {
 		ctx.Eval(1)
@@ -547,7 +583,7 @@ func c11Run(ctx *core.Ctx) {
 		}
 		return true
 	}
-	extra := append(c11Extra(), c11Many()...)
+	extra := append(append(c11Extra(), c11Many()...), c11Cycle()...)
 	for j, tm := range extra {
 		if ctx.Mine(j) {
 			if ctx.Expired() {
